@@ -23,38 +23,32 @@ Proof.
 Qed.
 
 Lemma access_accepted_iff_every_index_in_range_l : forall ak m dims idxs,
-  supported ak dims -> Forall int_range idxs ->
+  supported ak dims -> dims_fit dims ->
   ((exists k, resolve ak m dims (size dims) idxs = inl k) <-> in_range dims idxs) /\
   (forall k, resolve ak m dims (size dims) idxs = inl k -> k = row_major dims idxs /\ 0 <= k < size dims).
 Proof.
-  intros ak m dims idxs Hs Hi. destruct (resolve_accepts_iff_l ak m dims idxs Hs Hi) as [A B].
+  intros ak m dims idxs Hs Hd. destruct (resolve_accepts_iff_l ak m dims idxs Hs Hd) as [A B].
   split; [exact A|]. intros k H. split; [apply B; exact H|eapply resolve_lt_size_l; eauto].
 Qed.
 
-Lemma access_cells_are_a_bijection_l : forall ak m dims, supported ak dims ->
-  (forall a b k, Forall int_range a -> Forall int_range b ->
-     resolve ak m dims (size dims) a = inl k -> resolve ak m dims (size dims) b = inl k -> a = b) /\
-  (positive_dims dims -> Forall int_range dims -> forall k, 0 <= k < size dims ->
-     exists idxs, Forall int_range idxs /\ in_range dims idxs /\ resolve ak m dims (size dims) idxs = inl k).
+Lemma access_cells_are_a_bijection_l : forall ak m dims, supported ak dims -> dims_fit dims ->
+  (forall a b k, resolve ak m dims (size dims) a = inl k -> resolve ak m dims (size dims) b = inl k -> a = b) /\
+  (positive_dims dims -> forall k, 0 <= k < size dims ->
+     exists idxs, in_range dims idxs /\ resolve ak m dims (size dims) idxs = inl k).
 Proof.
-  intros ak m dims Hs. split.
-  - intros a b k Ha Hb. apply resolve_injective_l; assumption.
-  - intros Hp Hd k Hk. apply resolve_surjective_l; assumption.
+  intros ak m dims Hs Hd. split.
+  - intros a b k. apply resolve_injective_l; assumption.
+  - intros Hp k Hk. apply resolve_surjective_l; assumption.
 Qed.
 
-Lemma narrowed_index_accepted_refuted_l :
-  exists ak m dims idxs k, supported ak dims /\ ~ in_range dims idxs /\
-                           resolve ak m dims (size dims) idxs = inl k.
-Proof.
-  exists ANamed, Wr, [2; 3], [4294967297; 1], 4. split; [exact I|]. split.
-  - cbn [in_range]. lia.
-  - vm_compute. reflexivity.
-Qed.
-
-Lemma narrowed_index_1d_write_accepted_refuted_l :
-  ~ in_range [4] [4294967297] /\ resolve ANamed Wr [4] 4 [4294967297] = inl 1 /\
-  resolve ANamed Rd [4] 4 [4294967297] = inr EBounds.
-Proof. split; [cbn [in_range]; lia|]. split; vm_compute; reflexivity. Qed.
+(* the witnesses of the former int truncation (fixed by ff8053c) are rejected at every site *)
+Lemma former_narrowing_witnesses_rejected_l :
+  resolve ANamed Wr [2; 3] 6 [4294967297; 1] = inr EBounds /\ resolve ANamed Rd [2; 3] 6 [1; -4294967295] = inr EBounds /\
+  resolve ANamed Wr [4] 4 [4294967297] = inr EBounds /\ resolve AMember Wr [4] 4 [4294967297] = inr EBounds /\
+  resolve AMember Rd [4] 4 [4294967297] = inr EOther /\ resolve AMember Wr [2; 3] 6 [4294967297; 1] = inr EBounds /\
+  snd (step ANamed [4] 4096 (mkst [1; 2; 3; 4] (Some 0)) (OPtrWrite 4294967297 9)) = RErr EBounds /\
+  snd (step ANamed [2; 3] 4096 (mkst [1; 2; 3; 4; 5; 6] None) (OAddr [4294967297; 1])) = RErr EBounds.
+Proof. repeat split; vm_compute; reflexivity. Qed.
 
 Lemma member_rank3_in_range_rejected_refuted_l :
   exists dims idxs, in_range dims idxs /\ resolve AMember Rd dims (size dims) idxs = inr EBounds /\
@@ -91,12 +85,10 @@ Proof.
   intros ak m dims stor idxs e b L H. destruct (resolve_err_class_l ak m dims stor idxs e L H) as [->|H1]; auto.
 Qed.
 
-Lemma pointer_arithmetic_wraps_refuted_l : forall base n e, base_ok base n -> 0 <= e -> e + 1 < n ->
-  exists k, ~ (0 <= e + k < n) /\ ptr_arith base n e true k = Some (e + 1).
-Proof.
-  intros base n e Hb He Hn. exists (2305843009213693952 + 1). split; [unfold base_ok, two64 in Hb; lia|].
-  apply ptr_arith_wrap_l; assumption.
-Qed.
+(* the witness of the former offset*8 wrap (fixed by 2bd3a28): p + (2^61 + 1) is rejected, from every position *)
+Lemma pointer_huge_offset_rejected_l : forall base n e plus k,
+  max_ptr_offset < k \/ k < - max_ptr_offset -> ptr_arith base n e plus k = None.
+Proof. exact ptr_arith_huge_rejected_l. Qed.
 
 Lemma pointer_index_into_multidim_rejected_refuted_l :
   exists dims s, wf dims s /\ snd (step ANamed dims 4096 s ODeref) = RVal 6 /\
